@@ -30,6 +30,49 @@ func resetNodeCache() {
 	nodeCache.Store(&sync.Map{})
 }
 
+// editEpoch counts the changes that have been made to any node or document.
+// Everything that is derived from the nodes and kept for later (the families of
+// a document, the families and spouses of an individual, the husband and wife
+// of a family) remembers the epoch it was built in and is built again when the
+// epoch has moved on. It is as crude as nodeCache, and for the same reason: a
+// node does not know what it is part of.
+var editEpoch uint64
+
+func currentEditEpoch() uint64 {
+	return atomic.LoadUint64(&editEpoch)
+}
+
+// nodesChanged has to be called after any change to the children or the value
+// of a node, or to the nodes of a document. The nodes that were added, removed
+// or changed can be provided to avoid building everything again for a change
+// that nothing but the children of a node depend on.
+func nodesChanged(changed ...Node) {
+	resetNodeCache()
+
+	if len(changed) == 0 {
+		atomic.AddUint64(&editEpoch, 1)
+
+		return
+	}
+
+	for _, node := range changed {
+		if IsNil(node) {
+			continue
+		}
+
+		switch node.Tag() {
+		case TagIndividual, TagFamily, TagHusband, TagWife, TagChild,
+			UnofficialTagUniqueID, UnofficialTagFamilySearchID1,
+			UnofficialTagFamilySearchID2:
+			// Families, spouses, parents, children and unique identifiers
+			// are derived from these.
+			atomic.AddUint64(&editEpoch, 1)
+
+			return
+		}
+	}
+}
+
 func NewNodes(ns interface{}) (nodes Nodes) {
 	v := reflect.ValueOf(ns)
 	for i := 0; i < v.Len(); i++ {
